@@ -212,6 +212,14 @@ func TestVerifC20(t *testing.T) {
 				payloadsByGroup[string(acc.Group().PublicKey)] = append(payloadsByGroup[string(acc.Group().PublicKey)], p)
 			}
 		}
+		if ai%2 == 1 {
+			// one entry well above 64 KiB in every other account, whatever the seed
+			p := "account-large-" + strings.Repeat("y", 100<<10)
+			if _, err := acc.MessageStore().AddMessage(ctx, []byte(p)); err == nil {
+				payloadsByGroup[string(acc.Group().PublicKey)] = append(payloadsByGroup[string(acc.Group().PublicKey)], p)
+				rep.Count("large_entries", 1)
+			}
+		}
 		ngroups := rng.Intn(3)
 		for gi := 0; gi < ngroups; gi++ {
 			r, err := svcA.MultiMemberGroupCreate(ctx, &protocoltypes.MultiMemberGroupCreate_Request{})
@@ -225,6 +233,11 @@ func TestVerifC20(t *testing.T) {
 			}
 			for k := 0; k < rng.Intn(9); k++ {
 				p := fmt.Sprintf("g%d-msg-%d", gi, k)
+				if k == 1 && (gi+ai)%2 == 0 {
+					// entry sizes across the usual buffer boundaries (4 KiB .. 200 KiB)
+					p += strings.Repeat("x", []int{4096, 65536 - 200, 65536 + 1, 100 << 10, 200 << 10}[rng.Intn(5)])
+					rep.Count("large_entries", 1)
+				}
 				if _, err := svcA.AppMessageSend(ctx, &protocoltypes.AppMessageSend_Request{GroupPk: r.GroupPk, Payload: []byte(p)}); err == nil {
 					payloadsByGroup[string(r.GroupPk)] = append(payloadsByGroup[string(r.GroupPk)], p)
 				}
